@@ -33,7 +33,11 @@
 #define PREFIX ""
 #endif
 
+#ifdef C08
 static unsigned char vf_input[sizeof(PREFIX) + NBYTES + 64];
+#else
+static unsigned char vf_input[sizeof(PREFIX) + NBYTES];	/* exact size: reads at a symbolic position stay cheap */
+#endif
 static int vf_len, vf_pos;
 #ifdef VF_NATIVE
 #define VF_GETC vf_getc
